@@ -35,7 +35,10 @@ pub fn run(ctx: &Ctx, rep: &mut Report) {
     let n = ctx.budget(400, 8000);
     // every length 1..=160 once (small integers / eighths), then random lengths up to 310
     for it in 0..(n + 160) {
-        let xs = gen_nums(&mut rng, if it < 160 { Some(it + 1) } else { None });
+        let mut xs = gen_nums(&mut rng, if it < 160 { Some(it + 1) } else { None });
+        // forced lengths come in three orders: as generated, ascending, descending
+        if it < 160 && it % 3 == 1 { xs.sort_by(|a, b| a.partial_cmp(b).unwrap()); }
+        if it < 160 && it % 3 == 2 { xs.sort_by(|a, b| b.partial_cmp(a).unwrap()); }
         if xs.is_empty() {
             continue;
         }
